@@ -18,7 +18,7 @@ def plan(tier, seed, kf_ids):
     bases = list(range(lo, hi, 1 << 21))
     if q:
         pick = set()
-        for x in (0.0, math.pi / 2, -math.pi / 2, math.pi, -math.pi):
+        for x in (0.0, math.pi / 2, -math.pi):
             xb = int(x * (1 << F))
             pick.add(max(b for b in bases if b <= xb))
         pick.add(rnd.choice(bases))
@@ -27,10 +27,10 @@ def plan(tier, seed, kf_ids):
         bases_s = bases
     for b in bases_s:
         jobs.append(acc.trig_job("c16", "sin", a, b, 64, 15, 30))
-    for b in (bases_s if not q else bases_s[::2]):
+    for b in (bases_s if not q else bases_s[1:2]):
         jobs.append(acc.trig_job("c16", "cos", a, b, 64, 15, 30))
     # far angles: a few intervals at the edge of |x| <= 200 (direct), and exact range reduction for all |x| <= 200
-    far = [int(199.75 * (1 << F)), int(-200 * (1 << F))] if q else [int(x * (1 << F)) for x in (199.75, -200, 100.0, -57.3, 31.25, 12.5)]
+    far = [int(-200 * (1 << F))] if q else [int(x * (1 << F)) for x in (199.75, -200, 100.0, -57.3, 31.25, 12.5)]
     for b in far:
         jobs.append(acc.trig_job("c16", "sin", a, b, 64, 15, 30))
     for al, f in (("I9F23", 23), ("I32F32", 32)) if q else (("I9F23", 23), ("I32F32", 32), ("I16F48", 48), ("I64F64", 64)):
